@@ -129,4 +129,411 @@ theorem unlink_any (s : S) (w : WF s) :
     · exact Or.inr hf
   · intro f hf; rw [h0] at hf; simp at hf
 
+/-! ### loops over a logger's handlers -/
+
+theorem modAtM_spec (f : α → Option α) : ∀ (xs : List α) (i : Nat) (ys : List α), modAtM i f xs = some ys →
+    ys.length = xs.length ∧ (∃ x y, xs[i]? = some x ∧ f x = some y ∧ ys[i]? = some y) ∧
+    ∀ j, j ≠ i → ys[j]? = xs[j]? := by
+  intro xs
+  induction xs with
+  | nil => intro i ys h; simp [modAtM] at h
+  | cons x r ih =>
+    intro i ys h
+    cases i with
+    | zero =>
+      simp only [modAtM, Option.map_eq_some_iff] at h
+      obtain ⟨y, hy, rfl⟩ := h
+      refine ⟨by simp, ⟨x, y, by simp, hy, by simp⟩, ?_⟩
+      intro j hj
+      cases j with
+      | zero => exact absurd rfl hj
+      | succ j => simp
+    | succ i =>
+      simp only [modAtM, Option.map_eq_some_iff] at h
+      obtain ⟨zs, hz, rfl⟩ := h
+      obtain ⟨hl, ⟨a, b, ha, hb, hc⟩, ho⟩ := ih i zs hz
+      refine ⟨by simp [hl], ⟨a, b, by simpa using ha, hb, by simpa using hc⟩, ?_⟩
+      intro j hj
+      cases j with
+      | zero => simp
+      | succ j => simpa using ho j (by omega)
+
+theorem modAtM_some (f : α → Option α) : ∀ (xs : List α) (i : Nat) (x y : α), xs[i]? = some x → f x = some y →
+    ∃ ys, modAtM i f xs = some ys := by
+  intro xs
+  induction xs with
+  | nil => intro i x y h; simp at h
+  | cons a r ih =>
+    intro i x y h hf
+    cases i with
+    | zero =>
+      simp at h; subst h
+      exact ⟨y :: r, by simp [modAtM, hf]⟩
+    | succ i =>
+      simp at h
+      obtain ⟨zs, hz⟩ := ih i x y h hf
+      exact ⟨a :: zs, by simp [modAtM, hz]⟩
+
+theorem runBody_cons_true (A : Acts α) (i : Nat) (st : FanStmt) (rest : List FanStmt) (xs : List α) (x : α)
+    (hx : xs[i]? = some x) (hg : guardsOk A x st.guards = some true) (he : isExit st.act = false)
+    (hc : st.act ≠ "continue") :
+    runBody A i (st :: rest) xs =
+      match A.apply st.act st.arg i xs with
+      | none => none
+      | some xs' => runBody A i rest xs' := by
+  rw [runBody]
+  simp only [hx, hg, he, hc]
+  split
+  · simp_all
+  · cases A.apply st.act st.arg i xs <;> rfl
+
+theorem runBody_cons_false (A : Acts α) (i : Nat) (st : FanStmt) (rest : List FanStmt) (xs : List α) (x : α)
+    (hx : xs[i]? = some x) (hg : guardsOk A x st.guards = some false) :
+    runBody A i (st :: rest) xs = runBody A i rest xs := by
+  simp [runBody, hx, hg]
+
+theorem guardsOk_nil (A : Acts α) (x : α) : guardsOk A x [] = some true := rfl
+
+theorem guardsOk_hasattr (A : Acts α) (x : α) (m : String) :
+    guardsOk A x [(true, "hasattr", m)] = some (A.has x m) := by
+  cases h : A.has x m <;> simp [guardsOk, guardOk, h]
+
+/-- a statement that a handler loop may contain without putting the property at risk: logging a
+    fixed message, or `handler.reopen()` under `if hasattr(handler, 'reopen')` -/
+def okStmt (st : FanStmt) : Bool :=
+  (st.act == "logger.info" && st.arg != "?" && (st.guards == [] || st.guards == [(true, "hasattr", "reopen")]))
+  || (st.act == "elem.reopen" && st.guards == [(true, "hasattr", "reopen")])
+
+def reopens (st : FanStmt) : Bool := st.act == "elem.reopen" && st.guards == [(true, "hasattr", "reopen")]
+
+/-- **no early exit, every handler that has reopen() is reopened**: the body consists of such
+    statements only (no break / continue / return / raise, nothing conditional on anything else)
+    and one of them is the reopen -/
+def SafeReopenBody (body : List FanStmt) : Bool := body.all okStmt && body.any reopens
+
+def HBound : Handler → Prop
+  | .file _ s => Bound s
+  | _ => True
+
+/-- handler `x` is what became of handler `a` (same kind, same configuration): still well-formed,
+    and no file older than `a` has come to the configured path -/
+def Ev (a x : Handler) : Prop :=
+  match a, x with
+  | .file c s, .file c' s' => c' = c ∧ WF s' ∧ s.hist ≤ s'.hist ∧ (FreshAt s.hist s → FreshAt s.hist s')
+  | .stream _, .stream _ => True
+  | .bare _, .bare _ => True
+  | _, _ => False
+
+theorem Ev_emit (b : Bytes) (a x : Handler) (h : Ev a x) : Ev a (emitH b x) := by
+  cases a with
+  | stream n => cases x <;> simp_all [Ev, emitH]
+  | bare n => cases x <;> simp_all [Ev, emitH]
+  | file c s =>
+    cases x with
+    | stream n => simp [Ev] at h
+    | bare n => simp [Ev] at h
+    | file c' s' =>
+      obtain ⟨hc, w, hh, fr⟩ := h
+      obtain ⟨w', hi, _, fr'⟩ := emit_any c' s' w b
+      exact ⟨hc, w', by omega, fun h0 => fr' _ hh (fr h0)⟩
+
+theorem HBound_emit (b : Bytes) (x : Handler) (h : HBound x) : HBound (emitH b x) := by
+  cases x with
+  | stream n => trivial
+  | bare n => trivial
+  | file c s => exact (emit_any c s (Bound.wf h) b).2.2.1 h
+
+theorem Ev_reopen (a x y : Handler) (h : Ev a x) (hy : reopenH x = some y) : Ev a y ∧ HBound y := by
+  cases x with
+  | stream n =>
+    simp [reopenH] at hy; subst hy
+    exact ⟨h, trivial⟩
+  | bare n => simp [reopenH] at hy
+  | file c' s' =>
+    simp [reopenH] at hy; subst hy
+    cases a with
+    | stream n => simp [Ev] at h
+    | bare n => simp [Ev] at h
+    | file c s =>
+      obtain ⟨hc, w, hh, fr⟩ := h
+      obtain ⟨bd, hi, fr'⟩ := reopen_any c' s' w.ok
+      exact ⟨⟨hc, bd.wf, by omega, fun h0 => fr' _ hh (fr h0)⟩, bd⟩
+
+/-- loop invariant: element j is what became of `as[j]`, and the elements before index i are
+    bound to their configured paths -/
+def Inv (as : List Handler) (i : Nat) (xs : List Handler) : Prop :=
+  xs.length = as.length ∧
+  ∀ j a x, as[j]? = some a → xs[j]? = some x → Ev a x ∧ (j < i → HBound x)
+
+theorem Inv_logAll (as : List Handler) (i : Nat) (xs : List Handler) (b : Bytes) (h : Inv as i xs) :
+    Inv as i (logAll b xs) := by
+  refine ⟨by simp [logAll, h.1], ?_⟩
+  intro j a y ha hy
+  simp only [logAll, List.getElem?_map, Option.map_eq_some_iff] at hy
+  obtain ⟨x, hx, rfl⟩ := hy
+  obtain ⟨e, bd⟩ := h.2 j a x ha hx
+  exact ⟨Ev_emit b a x e, fun hj => HBound_emit b x (bd hj)⟩
+
+theorem has_reopen (x : Handler) : Handler.has x "reopen" = true ↔ ∃ y, reopenH x = some y := by
+  cases x <;> simp [Handler.has, reopenH]
+
+
+theorem runBody_safe (fmt : String → Bytes) (as : List Handler) (i : Nat) (hi : i < as.length) :
+    ∀ (body : List FanStmt), body.all okStmt = true → ∀ (xs : List Handler) (r : Bool), Inv as i xs →
+      (r = true → ∀ x, xs[i]? = some x → HBound x) →
+      ∃ xs', runBody (logActs fmt) i body xs = some (xs', .go) ∧ Inv as i xs' ∧
+        ((r || body.any reopens) = true → ∀ x, xs'[i]? = some x → HBound x) := by
+  intro body
+  induction body with
+  | nil =>
+    intro _ xs r I hr
+    exact ⟨xs, rfl, I, by simpa using hr⟩
+  | cons st rest ih =>
+    intro hb xs r I hr
+    simp only [List.all_cons, Bool.and_eq_true] at hb
+    obtain ⟨hst, hrest⟩ := hb
+    have hlen : i < xs.length := by rw [I.1]; exact hi
+    obtain ⟨x, hx⟩ : ∃ x, xs[i]? = some x := ⟨xs[i], by simp [hlen]⟩
+    obtain ⟨a, ha⟩ : ∃ a, as[i]? = some a := ⟨as[i], by simp [hi]⟩
+    -- what the element's kind says about the guard
+    have hbare : Handler.has x "reopen" = false → ∀ xs', Inv as i xs' → ∀ y, xs'[i]? = some y → HBound y := by
+      intro hf xs' I' y hy
+      have e1 := (I.2 i a x ha hx).1
+      have e2 := (I'.2 i a y ha hy).1
+      cases x <;> simp [Handler.has] at hf
+      cases a <;> simp [Ev] at e1
+      cases y <;> simp [Ev] at e2
+      simp [HBound]
+    simp only [okStmt, Bool.or_eq_true, Bool.and_eq_true, beq_iff_eq, bne_iff_ne, ne_eq] at hst
+    rcases hst with ⟨⟨hact, harg⟩, hg⟩ | ⟨hact, hg⟩
+    · -- logger.info(<fixed message>)
+      have hnre : reopens st = false := by simp [reopens, hact]
+      have step : ∀ r', (r' = true → ∀ x, xs[i]? = some x → HBound x) →
+          ∃ xs', runBody (logActs fmt) i rest (logAll (fmt st.arg) xs) = some (xs', .go) ∧ Inv as i xs' ∧
+            ((r' || rest.any reopens) = true → ∀ x, xs'[i]? = some x → HBound x) := by
+        intro r' hr'
+        apply ih hrest _ r' (Inv_logAll as i xs _ I)
+        intro h1 y hy
+        simp only [logAll, List.getElem?_map, Option.map_eq_some_iff] at hy
+        obtain ⟨x0, hx0, rfl⟩ := hy
+        exact HBound_emit _ _ (hr' h1 x0 hx0)
+      have run_true : guardsOk (logActs fmt) x st.guards = some true →
+          runBody (logActs fmt) i (st :: rest) xs = runBody (logActs fmt) i rest (logAll (fmt st.arg) xs) := by
+        intro hgd
+        rw [runBody_cons_true _ i st rest xs x hx hgd (by simp [hact, isExit]) (by simp [hact])]
+        simp [logActs, hact, harg]
+      have run_false : guardsOk (logActs fmt) x st.guards = some false →
+          runBody (logActs fmt) i (st :: rest) xs = runBody (logActs fmt) i rest xs :=
+        fun hgd => runBody_cons_false _ i st rest xs x hx hgd
+      rcases hg with hg | hg
+      · obtain ⟨xs', h1, h2, h3⟩ := step r hr
+        refine ⟨xs', by rw [run_true (by rw [hg]; rfl)]; exact h1, h2, ?_⟩
+        simpa [List.any_cons, hnre] using h3
+      · by_cases hh : Handler.has x "reopen" = true
+        · obtain ⟨xs', h1, h2, h3⟩ := step r hr
+          refine ⟨xs', by rw [run_true (by rw [hg, guardsOk_hasattr]; exact congrArg some hh)]; exact h1, h2, ?_⟩
+          simpa [List.any_cons, hnre] using h3
+        · have hh' : Handler.has x "reopen" = false := by simpa using hh
+          obtain ⟨xs', h1, h2, h3⟩ := ih hrest xs r I hr
+          refine ⟨xs', by rw [run_false (by rw [hg, guardsOk_hasattr]; exact congrArg some hh')]; exact h1, h2, ?_⟩
+          simpa [List.any_cons, hnre] using h3
+    · -- if hasattr(handler, 'reopen'): handler.reopen()
+      by_cases hh : Handler.has x "reopen" = true
+      · obtain ⟨y, hy⟩ := (has_reopen x).mp hh
+        obtain ⟨ys, hys⟩ := modAtM_some reopenH xs i x y hx hy
+        obtain ⟨hl, ⟨x1, y1, hx1, hy1, hys1⟩, ho⟩ := modAtM_spec reopenH xs i ys hys
+        rw [hx] at hx1; cases hx1
+        rw [hy] at hy1; cases hy1
+        have I' : Inv as i ys := by
+          refine ⟨by rw [hl, I.1], ?_⟩
+          intro j a' z ha' hz
+          by_cases hj : j = i
+          · subst hj
+            rw [hys1] at hz; cases hz
+            rw [ha] at ha'; cases ha'
+            exact ⟨(Ev_reopen a x y (I.2 j a x ha hx).1 hy).1, fun h => absurd h (by omega)⟩
+          · rw [ho j hj] at hz
+            exact I.2 j a' z ha' hz
+        obtain ⟨xs', h1, h2, h3⟩ := ih hrest ys true I' (by
+          intro _ z hz
+          rw [hys1] at hz; cases hz
+          exact (Ev_reopen a x y (I.2 i a x ha hx).1 hy).2)
+        refine ⟨xs', ?_, h2, fun _ => h3 (by simp)⟩
+        rw [← h1, runBody_cons_true _ i st rest xs x hx (by rw [hg, guardsOk_hasattr]; exact congrArg some hh)
+          (by simp [hact, isExit]) (by simp [hact])]
+        have : (logActs fmt).apply st.act st.arg i xs = some ys := by simp [logActs, hact, hys]
+        rw [this]
+      · have hh' : Handler.has x "reopen" = false := by simpa using hh
+        obtain ⟨xs', h1, h2, h3⟩ := ih hrest xs r I hr
+        refine ⟨xs', ?_, h2, fun _ => hbare hh' xs' h2⟩
+        rw [← h1]
+        exact runBody_cons_false _ i st rest xs x hx (by rw [hg, guardsOk_hasattr]; exact congrArg some hh')
+
+theorem runLoop_safe (fmt : String → Bytes) (as : List Handler) (body : List FanStmt)
+    (hb : SafeReopenBody body = true) :
+    ∀ (k i : Nat) (xs : List Handler), i + k = as.length → Inv as i xs →
+      ∃ xs', runLoop (logActs fmt) body k i xs = some xs' ∧ Inv as as.length xs' := by
+  simp only [SafeReopenBody, Bool.and_eq_true] at hb
+  intro k
+  induction k with
+  | zero =>
+    intro i xs hik I
+    have : i = as.length := by omega
+    subst this
+    exact ⟨xs, rfl, I⟩
+  | succ k ih =>
+    intro i xs hik I
+    obtain ⟨xs1, h1, I1, b1⟩ := runBody_safe fmt as i (by omega) body hb.1 xs false I (by simp)
+    have I2 : Inv as (i + 1) xs1 := by
+      refine ⟨I1.1, ?_⟩
+      intro j a x ha hx
+      refine ⟨(I1.2 j a x ha hx).1, ?_⟩
+      intro hj
+      by_cases hji : j = i
+      · subst hji; exact b1 (by simp [hb.2]) x hx
+      · exact (I1.2 j a x ha hx).2 (by omega)
+    obtain ⟨xs', h2, I3⟩ := ih (i + 1) xs1 (by omega) I2
+    exact ⟨xs', by simp [runLoop, h1, h2], I3⟩
+
+/-- **a handler loop without early exit reaches every handler**: after `for handler in handlers`
+    over a safe body, every handler is what became of the one at its index, and every file
+    handler is bound to its configured path -/
+theorem forEach_safe (fmt : String → Bytes) (body : List FanStmt) (hb : SafeReopenBody body = true)
+    (as : List Handler) (hwf : ∀ (j : Nat) c s, as[j]? = some (Handler.file c s) → WF s) :
+    ∃ xs', forEach (logActs fmt) body as = some xs' ∧ xs'.length = as.length ∧
+      ∀ (j : Nat) a x, as[j]? = some a → xs'[j]? = some x → Ev a x ∧ HBound x := by
+  have I0 : Inv as 0 as := by
+    refine ⟨rfl, ?_⟩
+    intro j a x ha hx
+    rw [ha] at hx; cases hx
+    refine ⟨?_, fun h => absurd h (by omega)⟩
+    cases a with
+    | stream n => simp [Ev]
+    | bare n => simp [Ev]
+    | file c s => exact ⟨rfl, hwf j c s ha, Nat.le_refl _, fun h => h⟩
+  obtain ⟨xs', h, I⟩ := runLoop_safe fmt as body hb as.length 0 as (by omega) I0
+  refine ⟨xs', h, I.1, ?_⟩
+  intro j a x ha hx
+  have hj : j < as.length := by
+    rcases Nat.lt_or_ge j as.length with h | h
+    · exact h
+    · have : as[j]? = none := by simp [h]
+      rw [this] at ha; cases ha
+  exact ⟨(I.2 j a x ha hx).1, (I.2 j a x ha hx).2 hj⟩
+
+/-! ### loops whose statements only call methods of the current element
+    (dispatchers of a process, processes of a group, groups of the daemon) -/
+
+/-- `element.removelogs()` / `element.reopenlogs()`, unconditionally or under the matching hasattr test -/
+def okElemStmt (st : FanStmt) : Bool :=
+  (st.act == "elem.removelogs" && (st.guards == [] || st.guards == [(true, "hasattr", "removelogs")]))
+  || (st.act == "elem.reopenlogs" && (st.guards == [] || st.guards == [(true, "hasattr", "reopenlogs")]))
+
+def methOf (st : FanStmt) : String := if st.act == "elem.removelogs" then "removelogs" else "reopenlogs"
+
+def elemStep (has : α → String → Bool) (call : String → α → Option α) (st : FanStmt) (x : α) : Option α :=
+  if st.guards == [] || has x (methOf st) then call (methOf st) x else some x
+
+/-- what a loop body of such statements does to one element -/
+def elemBody (has : α → String → Bool) (call : String → α → Option α) : List FanStmt → α → Option α
+  | [], x => some x
+  | st :: r, x => (elemStep has call st x).bind (elemBody has call r)
+
+theorem getElem?_mid (pre : List α) (x : α) (post : List α) : (pre ++ x :: post)[pre.length]? = some x := by
+  induction pre with
+  | nil => rfl
+  | cons a r ih => simp
+
+theorem modAtM_mid (f : α → Option α) (pre : List α) (x : α) (post : List α) :
+    modAtM pre.length f (pre ++ x :: post) = (f x).map (fun y => pre ++ y :: post) := by
+  induction pre with
+  | nil => simp [modAtM]
+  | cons a r ih =>
+    simp only [List.length_cons, List.cons_append, modAtM, ih]
+    cases f x <;> simp
+
+theorem runBody_elem (has : α → String → Bool) (call : String → α → Option α) (pre post : List α) :
+    ∀ (body : List FanStmt), body.all okElemStmt = true → ∀ x,
+      runBody (elemActs has call) pre.length body (pre ++ x :: post)
+        = (elemBody has call body x).map (fun y => (pre ++ y :: post, Ctl.go)) := by
+  intro body
+  induction body with
+  | nil => intro _ x; simp [runBody, elemBody]
+  | cons st rest ih =>
+    intro hb x
+    simp only [List.all_cons, Bool.and_eq_true] at hb
+    obtain ⟨hst, hrest⟩ := hb
+    have hx := getElem?_mid pre x post
+    simp only [okElemStmt, Bool.or_eq_true, Bool.and_eq_true, beq_iff_eq] at hst
+    -- the four shapes of an admissible statement
+    have key : ∀ (m : String), st.act = "elem." ++ m → (m = "removelogs" ∨ m = "reopenlogs") →
+        (st.guards = [] ∨ st.guards = [(true, "hasattr", m)]) → methOf st = m →
+        runBody (elemActs has call) pre.length (st :: rest) (pre ++ x :: post)
+          = (elemBody has call (st :: rest) x).map (fun y => (pre ++ y :: post, Ctl.go)) := by
+      intro m hact hm hg hmeth
+      have hex : isExit st.act = false := by rcases hm with rfl | rfl <;> simp [hact, isExit] <;> decide
+      have hco : st.act ≠ "continue" := by rcases hm with rfl | rfl <;> simp [hact] <;> decide
+      have happ : (elemActs has call).apply st.act st.arg pre.length (pre ++ x :: post)
+          = (call m x).map (fun y => pre ++ y :: post) := by
+        rcases hm with rfl | rfl
+        · have : st.act = "elem.removelogs" := by rw [hact]; decide
+          simp [elemActs, this, modAtM_mid]
+        · have h1 : st.act = "elem.reopenlogs" := by rw [hact]; decide
+          have h2 : ¬ st.act = "elem.removelogs" := by rw [h1]; decide
+          simp [elemActs, h1, modAtM_mid]
+      have run_call : guardsOk (elemActs has call) x st.guards = some true →
+          (st.guards == [] || has x m) = true →
+          runBody (elemActs has call) pre.length (st :: rest) (pre ++ x :: post)
+            = (elemBody has call (st :: rest) x).map (fun y => (pre ++ y :: post, Ctl.go)) := by
+        intro hgd hcond
+        rw [runBody_cons_true _ _ st rest _ x hx hgd hex hco, happ]
+        simp only [elemBody, elemStep, hmeth, hcond, if_true]
+        cases hc : call m x with
+        | none => simp
+        | some y => simp [ih hrest y]
+      rcases hg with hg | hg
+      · exact run_call (by rw [hg]; rfl) (by simp [hg])
+      · by_cases hh : has x m = true
+        · exact run_call (by rw [hg, guardsOk_hasattr]; exact congrArg some hh) (by simp [hh])
+        · have hh' : has x m = false := by simpa using hh
+          rw [runBody_cons_false _ _ st rest _ x hx (by rw [hg, guardsOk_hasattr]; exact congrArg some hh')]
+          have : (st.guards == [] || has x m) = false := by simp [hg, hh']
+          simp only [elemBody, elemStep, hmeth, this]
+          simpa using ih hrest x
+    rcases hst with ⟨hact, hg⟩ | ⟨hact, hg⟩
+    · exact key "removelogs" (by rw [hact]; decide) (Or.inl rfl) hg (by simp [methOf, hact])
+    · exact key "reopenlogs" (by rw [hact]; decide) (Or.inr rfl) hg (by simp [methOf, hact])
+
+theorem runLoop_elem (has : α → String → Bool) (call : String → α → Option α) (body : List FanStmt)
+    (hb : body.all okElemStmt = true) (F : α → α) (hF : ∀ x, elemBody has call body x = some (F x)) :
+    ∀ (rest pre : List α),
+      runLoop (elemActs has call) body rest.length pre.length (pre ++ rest) = some (pre ++ rest.map F) := by
+  intro rest
+  induction rest with
+  | nil => intro pre; simp [runLoop]
+  | cons x r ih =>
+    intro pre
+    have h1 := runBody_elem has call pre r body hb x
+    rw [hF x] at h1
+    have h2 := ih (pre ++ [F x])
+    simp only [List.length_append, List.length_cons, List.length_nil, List.append_assoc, List.cons_append,
+      List.nil_append] at h2
+    simp only [List.length_cons, runLoop, h1, Option.map_some, List.map_cons]
+    exact h2
+
+/-- **a loop without early exit reaches every element**: when the body consists of
+    `element.removelogs()` / `element.reopenlogs()` statements only (no break / continue / return,
+    no other condition), the loop does to *every* element what the body does to one -/
+theorem forEach_elem (has : α → String → Bool) (call : String → α → Option α) (body : List FanStmt)
+    (hb : body.all okElemStmt = true) (F : α → α) (hF : ∀ x, elemBody has call body x = some (F x))
+    (xs : List α) : forEach (elemActs has call) body xs = some (xs.map F) := by
+  have := runLoop_elem has call body hb F hF xs []
+  simpa [forEach] using this
+
+theorem allM_map (F : α → β) (f : α → Option β) (hf : ∀ x, f x = some (F x)) (xs : List α) :
+    allM f xs = some (xs.map F) := by
+  induction xs with
+  | nil => rfl
+  | cons x r ih => simp [allM, hf, ih]
+
 end Sv.LogFan
